@@ -218,6 +218,9 @@ func (acc *Accumulator) Remove(sk *gabikeys.PrivateKey, e *big.Int, parent *Even
 // UnmarshalVerify verifies the signature and unmarshals the accumulator
 // (c.f. Accumulator.Sign()).
 func (s *SignedAccumulator) UnmarshalVerify(pk *gabikeys.PublicKey) (*Accumulator, error) {
+	if s == nil {
+		return nil, errors.New("no signed accumulator")
+	}
 	if s.Accumulator != nil {
 		return s.Accumulator, nil
 	}
